@@ -8,6 +8,7 @@ var units = map[string]common.UnitFunc{
 	"byzrbc":      unitByzRbc,
 	"c04orch":     unitC04orch,
 	"c04live":     unitC04live,
+	"c04tiny":     unitC04tiny,
 	"c03conc":     unitC03conc,
 	"byzorch":     unitByzOrch,
 	"c14ctl":      unitC14ctl,
